@@ -408,8 +408,9 @@ def answer (line : String) : String :=
     | some (ty, [h]) =>
       match parseHex h with
       | some bs =>
-        match run bytesCursorInput (Impl.decodeP ty) bs with
-        | (.ok v, r) => "ok " ++ showVal v ++ " " ++ toString r.length
+        -- `decode_from_bytes`: the cursor with its position arithmetic (`cursorInput`)
+        match run cursorInput (Impl.decodeP ty) (bs, 0) with
+        | (.ok v, r) => "ok " ++ showVal v ++ " " ++ toString (r.1.length - r.2)
         | (.err, _) => "err"
         | (.panic, _) => "panic"
       | none => "bad-op"
